@@ -55,3 +55,58 @@ def c34_index_board(viol, inp, param):
         files, boards = d
         return boards - files == pred
     return False
+
+
+# ---- ir family helpers -----------------------------------------------------------------------------
+import os as _os
+_ALPHA = None
+
+
+def _alphabet():
+    global _ALPHA
+    if _ALPHA is None:
+        _ALPHA = json.load(open(_os.path.join(_os.path.dirname(_os.path.dirname(_os.path.abspath(__file__))), "specs", "ir_alphabet.json")))
+    return _ALPHA
+
+
+def _foldpath(p):
+    f = _alphabet()["fold"]
+    return [f[x] for x in p]
+
+
+# ---- C10: an explicit `label:` field beats a later primary value `x: text` --------------------------
+@classifier("c10_label_field_beats_later_primary")
+def c10_label_field(viol, inp, param):
+    if viol["aspect"] != "label-is-not-the-last-assignment":
+        return False
+    path, observed, expected = json.loads(viol["detail"])
+    decls = [_alphabet()["decls"][i - 1] for i in inp["prog"]]
+    for i, d in enumerate(decls):
+        if d["k"] == "attr" and d["a"] == "label" and _foldpath(d["p"]) == path and d["v"] == observed:
+            for e in decls[i + 1:]:
+                if e["k"] == "obj" and e.get("v") == expected and _foldpath(e["p"]) == path:
+                    return True
+    return False
+
+
+# ---- C11: a connection created after a deletion in its bundle reuses a live index -------------------
+@classifier("c11_index_reused_after_deletion")
+def c11_index_reused(viol, inp, param):
+    if viol["aspect"] != "indexed-reference-changed-several-connections":
+        return False
+    decls = [_alphabet()["decls"][i - 1] for i in inp["prog"]]
+
+    def bundle(d):
+        return (tuple(_foldpath(d["s"])), tuple(_foldpath(d["d"])), d["sa"], d["da"])
+    # history predicate: in one bundle, a deletion (indexed, or through a null of an endpoint's ancestor is NOT enough:
+    # that removes the whole bundle), then a creation, then an indexed update
+    for i, d in enumerate(decls):
+        if d["k"] != "enull":
+            continue
+        b = bundle(d)
+        for j in range(i + 1, len(decls)):
+            if decls[j]["k"] == "edge" and bundle(decls[j]) == b:
+                for k in range(j + 1, len(decls)):
+                    if decls[k]["k"] == "eref" and bundle(decls[k]) == b:
+                        return True
+    return False
